@@ -50,7 +50,7 @@ pub fn run(seed: u64, rounds: u64) -> StressOut {
         a_rounds += 1;
         let w = wins.load(Ordering::SeqCst);
         if w > 1 {
-            out.violations.push((vec!["C03"], format!("{} of {} concurrent CAS stores carrying the same CAS {} on a{} key were acknowledged (round {})", w, nthreads, token, if present { " present" } else { "n absent" }, round)));
+            out.violations.push((vec!["C03", "C02"], format!("{} of {} concurrent CAS stores carrying the same CAS {} on a{} key were acknowledged (round {})", w, nthreads, token, if present { " present" } else { "n absent" }, round)));
             break;
         }
     }
@@ -90,7 +90,7 @@ pub fn run(seed: u64, rounds: u64) -> StressOut {
         }
         b_rounds += 1;
         if lost.load(Ordering::SeqCst) > 0 || store.get(&k).is_err() {
-            out.violations.push((vec!["C03"], format!("a store with TTL 0 acknowledged at time 10 is gone: concurrent readers were collecting its expired predecessor (round {})", round)));
+            out.violations.push((vec!["C03", "C05"], format!("a store with TTL 0 acknowledged at time 10 is gone: concurrent readers were collecting its expired predecessor (round {})", round)));
             break;
         }
     }
@@ -170,7 +170,7 @@ pub fn run(seed: u64, rounds: u64) -> StressOut {
         let w = wins.load(Ordering::SeqCst);
         let val = crate::sut::Sut::records_of(&store).first().map(|(_, r)| r.value.clone()).unwrap_or_default();
         if w != 1 || val.len() != 6 {
-            out.violations.push((vec!["C04", "C03"], format!("{} of {} concurrent appends carrying the item's current CAS {} were acknowledged; final value {:?} (round {})", w, nthreads, tok, String::from_utf8_lossy(&val), round)));
+            out.violations.push((vec!["C04", "C03", "C02"], format!("{} of {} concurrent appends carrying the item's current CAS {} were acknowledged; final value {:?} (round {})", w, nthreads, tok, String::from_utf8_lossy(&val), round)));
             break;
         }
     }
@@ -225,7 +225,7 @@ pub fn run(seed: u64, rounds: u64) -> StressOut {
         e_rounds += iters as u64;
         let w = *wrong.lock().unwrap();
         if let Some((t, rc)) = w {
-            out.violations.push((vec!["C03", "C08"], format!("a delete carrying CAS {} removed a newer version of the item (CAS {}) that a concurrent store had just acknowledged", t, rc)));
+            out.violations.push((vec!["C03", "C08", "C02"], format!("a delete carrying CAS {} removed a newer version of the item (CAS {}) that a concurrent store had just acknowledged", t, rc)));
         }
     }
     out.kinds.push(("stale-cas-delete".into(), e_rounds));
